@@ -49,12 +49,27 @@ def snapshot(m):
                 continue
             s['load.%s#%d' % (k, i)] = h(v)
     pc = m.pulses
-    s['pulses.cache'] = tuple(sorted(k for k in pc.__dict__.keys())) + tuple(
-        sorted(str(k) for d in ('dvecs_cache', 'endseg_cache', 'matrix_dvecs_cache', 'matrix_endseg_cache')
-               for k in pc.__dict__.get(d, {}).keys()))
+    for k, v in pc.__dict__.items():
+        if k == 'pulses':
+            continue
+        s['pulses.' + k] = h(v)
     for i, p in enumerate(pc.pulses):
         s['pulses.cache#%d' % i] = tuple(sorted(p.__dict__.keys()))
     return s
+
+
+def container_values(m):
+    """flat {name or name[key]: hash} of everything the pulse container caches"""
+    out = {}
+    for k, v in m.pulses.__dict__.items():
+        if k == 'pulses':
+            continue
+        if isinstance(v, dict):
+            for kk, vv in v.items():
+                out['%s[%r]' % (k, kk)] = h(vv)
+        else:
+            out[k] = h(v)
+    return out
 
 
 def diff(a, b):
@@ -105,14 +120,25 @@ def same(a, b):
     return len(a) == len(b) and all(x.shape == y.shape and x.tobytes() == y.tobytes() for x, y in zip(a, b))
 
 
-def gen_history(rng, f0):
+def crossing_freqs(m):
+    """frequencies on both sides of the small-radius threshold r = 1e-4 lambda of the model's radii"""
+    out = []
+    for g in m.geo:
+        fc = 299.8e-4 / float(g.r)
+        if 1.0 < fc < 120.0:
+            out += [round(fc * 0.7, 4), round(fc * 1.3, 4)]
+    return out
+
+
+def gen_history(rng, f0, extra=()):
     ops = []
     n = rng.randint(3, 8)
     valid = False
+    freqs = FREQS + list(extra) * 2
     while len(ops) < n:
         k = rng.choice(['setF', 'compute', 'compute', 'far', 'near', 'far'])
         if k == 'setF':
-            ops.append(('setF', rng.choice(FREQS)))
+            ops.append(('setF', rng.choice(freqs)))
             valid = False
         elif k == 'compute':
             ops.append(('compute',))
@@ -218,6 +244,7 @@ def run(ck):
     ck.proof_side()
     d = ck.get_driver()
     declared = {k: set(d.ask('sess writes', k).split()) for k in ('setF', 'compute', 'far', 'near')}
+    geocaches = set(d.ask('sess geocaches').split())
     rng = ck.rng
     n = 40 if ck.tier == 'quick' else 500
     dis, viol = [], []
@@ -225,7 +252,7 @@ def run(ck):
     cases = [(rng.randrange(10 ** 9), None, False) for _ in range(n)]
     for seed, ops, is_corpus in corpus + cases:
         if ops is None:
-            ops = gen_history(rng, 7.0)
+            ops = gen_history(rng, 7.0, crossing_freqs(gen_model(seed)[1]))
         if is_corpus:
             # corpus: force a skin-effect model
             for s2 in range(seed, seed + 200):
@@ -239,7 +266,24 @@ def run(ck):
             ck.count('op_' + o[0])
         ck.count('dist_' + str(desc[-1]))
         why = None
+        # every attribute of the pulse container is a declared geometry cache, and holds what a fresh
+        # object at another frequency holds under the same name
+        unknown = sorted(k for k in m.pulses.__dict__ if k != 'pulses' and k not in geocaches)
+        if unknown:
+            why = 'pulse container carries caches the model does not declare: %s' % unknown
+        ref = gen_model(seed)[1]
+        ref.f = 10.0
+        ref.compute()
+        observe(ref, ('far', ((0, 30, 3), (0, 90, 2), None, None)))
+        observe(ref, ('near', ([3.0, 3.0, 3.0], [0.5, 0.5, 0.5], [2, 1, 2], None)))
+        cv, rv = container_values(m), container_values(ref)
+        for k in sorted(set(cv) & set(rv)):
+            if cv[k] != rv[k]:
+                why = 'geometry cache %s differs from a fresh object at another frequency' % k
+                break
+        ck.count('geo_cache_values_compared', len(set(cv) & set(rv)))
         for (op, f, obs, w, snap) in out:
+            w = {('pulses.cache' if (k.startswith('pulses.') and k[7:] in geocaches) else k) for k in w}
             extra = w - declared[op[0]] - {'timing'}
             if extra:
                 why = 'operation %s writes undeclared attributes %s' % (op[0], sorted(extra))
@@ -286,7 +330,10 @@ def run(ck):
         found = False
         for t in range(150):
             seed = rng.randrange(10 ** 9)
-            ops = gen_history(rng, 7.0)
+            cf = crossing_freqs(gen_model(seed)[1])
+            ops = gen_history(rng, 7.0, cf)
+            if cf and t % 2 == 0:
+                ops = [('setF', cf[0]), ('compute',), ('setF', cf[1]), ('compute',), ('setF', cf[0]), ('compute',)]
             bad = property_history(seed, ops)
             if bad:
                 ck.violation(dict(kind='history', gen_seed=seed, ops=[list(o) for o in ops], observed=bad))
